@@ -146,6 +146,9 @@ type reqSpec struct {
 	// Unless names the service that also claims this path: the request is
 	// only issued while the model has no live provider of it.
 	Unless string
+	// OnlyFrom names the provider that alone announces this binding (a
+	// newer revision of the service): see Run for what is expected.
+	OnlyFrom string
 }
 
 var methods = []struct{ full, svc string }{
@@ -162,16 +165,20 @@ var httpSpecs = map[string][]reqSpec{
 		{Verb: "POST", Path: "/vf.rs.A/Get", Body: `{"a":"k4"}`, Binding: "implicit"},
 		{Verb: "GET", Path: "/rs/a/k5?b=q", Binding: "var"},
 		{Verb: "GET", Path: "/rs/x/k6", Binding: "var", Unless: "C"},
+		{Verb: "GET", Path: "/cfg/a/k7", Binding: "config"},
+		{Verb: "GET", Path: "/rs/v2/k8", Binding: "var-v2", OnlyFrom: "b4"},
 	},
 	"/vf.rs.A/Put": {
 		{Verb: "POST", Path: "/rs/put", Body: `{"a":"p1"}`, Binding: "body"},
 		{Verb: "POST", Path: "/vf.rs.A/Put", Body: `{"a":"p2"}`, Binding: "implicit"},
+		{Verb: "POST", Path: "/cfg/put", Body: `{"a":"p3"}`, Binding: "config"},
 	},
 	"/vf.rs.B/Get": {
 		{Verb: "GET", Path: "/rs/b/k1", Binding: "var"},
 		{Verb: "POST", Path: "/rs/b", Body: `{"a":"k2"}`, Binding: "body"},
 		{Verb: "POST", Path: "/vf.rs.B/Get", Body: `{"a":"k3"}`, Binding: "implicit"},
 		{Verb: "GET", Path: "/rs/b2/k4/5", Binding: "var"},
+		{Verb: "GET", Path: "/cfg/b/k5", Binding: "config"},
 	},
 	"/vf.rs.C/Get": {
 		{Verb: "GET", Path: "/rs/c/k1", Binding: "var"},
@@ -305,7 +312,7 @@ func (w *Worker) Run(h History, draws int) *Outcome {
 		seen[obs] = true
 		out.Failures = append(out.Failures, Failure{step, obs, fmt.Sprintf(f, a...)})
 	}
-	mux, err := larking.NewMux(larking.FilesOption(w.env.Files))
+	mux, err := larking.NewMux(larking.FilesOption(w.env.Files), larking.ServiceConfigOption(serviceConfig()))
 	if err != nil {
 		out.Incon = append(out.Incon, "NewMux: "+err.Error())
 		return out
@@ -404,6 +411,33 @@ func (w *Worker) Run(h History, draws int) *Outcome {
 				s := specs[i%len(specs)]
 				if s.Unless != "" && len(m.live(s.Unless)) > 0 {
 					s = specs[0] // the path is claimed by the other service: ambiguous
+				}
+				if s.OnlyFrom != "" {
+					// a binding only the newer revision announces: it must work
+					// while that provider is registered, must not exist before
+					// it ever was, and is left open after it was dropped while
+					// older providers remain (served by a live provider or
+					// unrouted are both explained)
+					a := w.doHTTP(s)
+					switch {
+					case m.conns[s.OnlyFrom]:
+						check("http", s.Binding, a)
+					case !m.ever[s.OnlyFrom]:
+						out.NReq++
+						if ps := w.takePanics(); len(ps) > 0 {
+							fail(step, "http:"+ps[0].Key(), "request for %s panicked inside larking: %s", s.Path, ps[0].Value)
+						} else if a.Class != "unimplemented" {
+							fail(step, "http["+s.Binding+"]:route-of-never-registered-revision", "GET %s ended with %s (%s) although no provider announcing this binding was ever registered", s.Path, a.Class, a.Detail)
+						}
+					default:
+						out.NReq++
+						if ps := w.takePanics(); len(ps) > 0 {
+							fail(step, "http:"+ps[0].Key(), "request for %s panicked inside larking: %s", s.Path, ps[0].Value)
+						} else if a.Class == "served" && !live[a.Tag] {
+							fail(step, "served-by-dropped", "request for %s over http[%s] answered by %q, live back-ends in the model: %v", md.full, s.Binding, a.Tag, keys(live))
+						}
+					}
+					continue
 				}
 				check("http", s.Binding, w.doHTTP(s))
 			}
